@@ -7,6 +7,7 @@ RULES = {
     "CW-SITES": rules_cw.rule_sites,
     "CW-TOKEN": rules_cw.rule_token,
     "CW-INC-FAIL-ON-DESTRUCTED": rules_cw.rule_inc_fail_on_destructed,
+    "CW-UPGRADE-TRACE": rules_cw.rule_upgrade_trace,
     "CW-SPLIT-INC-PROTECTED": rules_cw.rule_split_inc,
     "CW-ZERO-DEFERS": rules_cw.rule_zero_defers,
     "CW-ATTEMPT-RECHECK": rules_cw.rule_attempt_recheck,
